@@ -46,6 +46,9 @@ func newSubnet(config SubnetConfig) (*dhcpSubnet, error) {
 	subnet := dhcpSubnet{}
 	subnet.LAN = config.LAN.Masked() // ensure this is a network address
 	subnet.ID = config.ID
+	if !subnet.LAN.Addr().Is4() { // the lease file can name anything
+		return nil, fmt.Errorf("invalid ipv4 subnet %s", config.LAN)
+	}
 
 	// get broadcast addr
 	a4 := subnet.LAN.Addr().As4()
